@@ -1,4 +1,5 @@
 import CssVerif.Model.StrCodec
+import CssVerif.Model.StrSafe
 import CssVerif.Gen.C03Productions
 open CssVerif CssVerif.Proto CssVerif.StrCodec
 
@@ -34,6 +35,14 @@ def handLen (name : String) (s : List Nat) : Option (Option Nat) :=
   | "simpleescapes" => some ((simpleEscMatch s).map (·.1))
   | _ => none
 
+def showClass : Option Unsafe → String
+  | none => "safe"
+  | some .dq => "dq"
+  | some .bshex => "bshex"
+  | some .bsnl => "bsnl"
+  | some .trail => "trail"
+  | some .ctrl => "ctrl"
+
 def kindOf (k : String) : Option TokKind :=
   match k with
   | "s" => some .string
@@ -60,6 +69,14 @@ def handle (line : String) : String :=
       | "strD" => showOpt (strD s)
       | "uriD" => showOpt (uriD s)
       | "uriDTok" => showOpt (uriDTok s)
+      | "strclass" => showClass (strClass s)
+      | "uriclass" => showClass (uriClass s)
+      | "escfree" => if escFree s then "1" else "0"
+      -- write, then read back as a token of the same kind: `RT <written> <re-read value | LEX>`
+      | "strRT" => let w := strE s
+          "RT " ++ encCps w ++ " " ++ (if lexString w = some w.length then showOpt (strD w) else "LEX")
+      | "uriRT" => let w := uriE s
+          "RT " ++ encCps w ++ " " ++ showOpt (uriD w)
       | _ => "bad-op"
   | [op, n, a] =>
     match decCps a with
